@@ -106,7 +106,7 @@ theorem ntinv_after_initPush (H : OHyp E rank Good) {s1 s3 : St U π} {nt : UNT 
   · intro F kids v hm hk i ai si hai hsi
     rw [hseen] at hm
     obtain ⟨it, hit', hite⟩ := List.mem_map.mp hm
-    obtain ⟨⟨dP, dv⟩, _, hmr, hpr, w, kids', hmw, hprog, hdl, hpop⟩ := Items.mem_right hph.ok it hit'
+    obtain ⟨⟨dP, dv⟩, _, hmr, hpr, w, kids', hmw, hprog, hdl, hpop, _⟩ := Items.mem_right hph.ok it hit'
     rw [hite] at hprog
     simp only at hprog hmw hdl hpop
     have e1 : F = dP := by injection hprog
@@ -128,7 +128,7 @@ theorem ntinv_after_initPush (H : OHyp E rank Good) {s1 s3 : St U π} {nt : UNT 
     exact ⟨v', by rw [r9]; exact hv'⟩
   · intro F v w hm
     obtain ⟨it, hit', hok⟩ := Items.mem_left hph.ok (F, v) (hflat F v w hm)
-    obtain ⟨_, _, w', kids, _, hprog, hdl, hpop⟩ := hok
+    obtain ⟨_, _, w', kids, _, hprog, hdl, hpop, _⟩ := hok
     simp only at hprog hdl hpop
     refine ⟨kids, ?_, derList_length E _ _ hdl, fun j aj sj a b => hst _ _ _ (hpop j aj sj a b)⟩
     rw [hseen, ← hprog]
@@ -201,16 +201,37 @@ theorem alt_step (H : OHyp E rank Good) {s s1 s3 : St U π} {nt : UNT U} {P : Sy
       rw [hcs.seenOf]; exact a4
   · intro done items hph hnd
     apply hph.step H.weak (P, v) pr (.node P arguments)
-    · intro d' it hd' ⟨c1, c2, w', kids', c3, c4, c5, c6⟩
-      refine ⟨?_, c2, w', kids', c3, c4, c5, fun i ai si h1 h2 => hst _ _ _ (hst1 _ _ _ (c6 i ai si h1 h2))⟩
-      show AList.lookup (nt, d'.1, d'.2) (AList.insert (nt, P, v) _ s3.maxRule) = _
-      rw [AList.lookup_insert_ne _ _ (by intro e; apply hnd; cases e; exact hd')]
-      have : s3.maxRule = s1.maxRule := by obtain ⟨c, rfl⟩ := hcs; rfl
-      rw [this, hsame1.maxRule]
-      exact c1
-    · refine ⟨AList.lookup_insert_self _ _ _, hpr, w, arguments, hm, rfl, hl, ?_⟩
-      intro i ai si h1 h2
-      exact hst _ _ _ (hpop i ai si h1 h2)
+    · intro d' it hd' ⟨c1, c2, w', kids', c3, c4, c5, c6, c7⟩
+      refine ⟨?_, c2, w', kids', c3, c4, c5, fun i ai si h1 h2 => hst _ _ _ (hst1 _ _ _ (c6 i ai si h1 h2)), ?_⟩
+      · show AList.lookup (nt, d'.1, d'.2) (AList.insert (nt, P, v) _ s3.maxRule) = _
+        rw [AList.lookup_insert_ne _ _ (by intro e; apply hnd; cases e; exact hd')]
+        have : s3.maxRule = s1.maxRule := by obtain ⟨c, rfl⟩ := hcs; rfl
+        rw [this, hsame1.maxRule]
+        exact c1
+      · -- the key of an earlier alternative is not overwritten: its program is another one
+        show AList.lookup (nt, it.2) s3.keys = some d'.2
+        have hk3 : s3.keys = AList.insert (nt, Tree.node P arguments) v s1.keys := by obtain ⟨c, rfl⟩ := hcs; rfl
+        rw [hk3, AList.lookup_insert]
+        split
+        · rename_i heq
+          exfalso
+          have hprog : it.2 = Tree.node P arguments := congrArg Prod.snd heq
+          rw [c4] at hprog
+          have e1 : d'.1 = P := by injection hprog
+          have e2 : kids' = arguments := by injection hprog
+          subst e2
+          rw [e1] at c3
+          obtain ⟨e3, _⟩ := H.ualt nt P kids' d'.2 w' v w c3 hm c5 hl
+          apply hnd
+          have : d' = (P, v) := Prod.ext e1 e3
+          rw [← this]; exact hd'
+        · rw [hsame1.keys]; exact c7
+    · refine ⟨AList.lookup_insert_self _ _ _, hpr, w, arguments, hm, rfl, hl, ?_, ?_⟩
+      · intro i ai si h1 h2
+        exact hst _ _ _ (hpop i ai si h1 h2)
+      · show AList.lookup (nt, Tree.node P arguments) s3.keys = some v
+        have hk3 : s3.keys = AList.insert (nt, Tree.node P arguments) v s1.keys := by obtain ⟨c, rfl⟩ := hcs; rfl
+        rw [hk3]; exact AList.lookup_insert_self _ _ _
 
 theorem rows_alts (H : GHyp E) {nt : UNT U} {rs} (hrs : AList.lookup nt E.G.rules = some rs) :
     ∀ x ∈ rs, altsOf E nt x.1 = x.2 := by
